@@ -35,6 +35,7 @@ ASSUMPTIONS = ["model validator implements SEC1 2.3.4 / 3.2.2.1 (range, curve "
                "equation, subgroup membership by n*P = O with the model's own "
                "arithmetic)", "PEM armour / base64 layer is judged by C10, not "
                "here: DER bytes are taken with the library's own unpem"]
+HISTORY_DIFF = {"quick": 120, "thorough": 1000}
 SHRINK = [["items"]]
 REQUIRED_PROBES = {"quick": ["reject_subgroup", "reject_range", "accept",
                              "reject_offcurve", "reject_nonresidue"],
@@ -141,6 +142,7 @@ def execute(prog):
     mc = mcurves.by_name(prog["curve"])
     curve, toy = libx.run_curve(mc)
     log = []
+    rlog = []
 
     def fail(oracle, site, msg, detail=None):
         raise core.Violation(core.violation(ID, oracle, site, msg, detail))
@@ -330,6 +332,8 @@ def execute(prog):
                          "loading a public key (%s, %s) raised %s(%s) on %s" % (
                              cont, descr, type(ex).__name__, ex,
                              data.hex()[:200]), dict(item=it))
+                rlog.append((cont, data.hex(), got[0], list(got[1])
+                             if isinstance(got[1], tuple) else got[1]))
                 if verdict[0] == "ok":
                     core.bump(out["probes"], "accept")
                 else:
@@ -370,6 +374,7 @@ def execute(prog):
             out["violation"] = v.v
     out["steps"] = out["ops"]
     out["digest"] = core.digest_of(log)
+    out["rdigest"] = core.digest_of(rlog)
     return out
 
 
